@@ -4,7 +4,7 @@
    changes of the daemon behind the tracker's back), every cid, every filter mask f : N.
    Cluster-wide part: every member list, allocation list and reply vector. *)
 From V Require Import Base.Common Model.C05_Tracker Model.C05_Check Model.C06_Check Model.C06_Global Model.C06_GlobalCheck
-  Proofs.C05_Tracker Proofs.C06_Status Proofs.C06_Global Proofs.C06_Monitor Proofs.C06_MonitorT Proofs.C05_MonitorC Proofs.C06_MonitorQ.
+  Proofs.C05_Tracker Proofs.C06_Status Proofs.C06_Global Proofs.C06_Monitor Proofs.C06_MonitorT Proofs.C05_MonitorC Proofs.C06_MonitorQ Proofs.C06_MonitorF.
 Open Scope N_scope.
 
 Definition reached (q n : nat) (ps : list (N * tpin)) (i : list (N * bool)) (evs : list event) : st := run (init q n ps i) evs.
@@ -198,3 +198,42 @@ Example c06_pending_example :
   spec_codes6 cf (mtrace 2 [0; 16] (init_of cf) evs) = [] /\
   map (fun eo => o_status (snd eo)) (mtrace 2 [] (init_of cf) evs) = [[32; 128]; [32; 512]; [16; 32]; [16; 4]].
 Proof. vm_compute. split; reflexivity. Qed.
+
+(* ---- completeness of codes 20 / 21 (both views truthful at quiescence) for the model ----
+   Hypotheses on the script, both needed (c06_truthful_example, last two conjuncts):
+   * stable_run: a cid does not change between meta and non-meta without an unpin (Cluster.pin refuses it);
+   * ord_run: the order recorded with a failing RecoverAll never lists a cid that RecoverAll newly put in error. The harness
+     guarantees it: `ord` is built from the list RecoverAll returned (harness/stateless/c05_rig_test.go, exec "recoverall"), and
+     stateless.RecoverAll returns `resp, err` before appending the cid whose enqueue failed. *)
+Theorem truthful_model_passes q np n pins i fs evs : (0 < np)%nat -> NoDup (map pcid pins) ->
+  let cf := (q, np, n, pins, dm_of i) in
+  stable_run (init_of cf) evs -> ord_run (init_of cf) evs ->
+  ~ In 20 (spec_codes6 cf (mtrace n fs (init_of cf) evs)) /\ ~ In 21 (spec_codes6 cf (mtrace n fs (init_of cf) evs)).
+Proof. exact (truthful_model_passes_l q np n pins i fs evs). Qed.
+Print Assumptions truthful_model_passes.
+
+(* the invariant behind it, one event: FI ties the monitor's record sp6 to the tracker state; its core (f_g1 / f_g2): a cid is
+   in s6_failed exactly when the operation tracked for it is a pin / unpin operation, in error once it is no longer live *)
+Theorem failed_record_follows_operations n fs s x e : FI s x -> ev_stable s e -> ord_ok s e ->
+  FI (fst (step s e)) (sp6_event x e (model_obs n (fst (step s e)) (snd (step s e)) fs)).
+Proof. exact (FI_step n fs s x e). Qed.
+Print Assumptions failed_record_follows_operations.
+
+(* non-vacuity: three pins missing from the daemon, one worker, queue of one: RecoverAll fails at the third cid. With the order the
+   harness would record (nothing recovered before... here []) both hypotheses hold and the trace passes through a failed pin, daemon
+   interference and a second recover. With an order that lists the cid RecoverAll stopped at, the model's own trace raises 20 and 21;
+   and an unstable script (remote pin, then meta pin on the same cid, the unpin fails) raises 20 as well *)
+Example c06_truthful_example :
+  let pins := [mk_pin 0 false false false 1; mk_pin 1 false false false 2; mk_pin 2 false false false 3] in
+  let cf : cfg := (1%nat, 1%nat, 3, pins, dm_of []) in
+  let evs ord := [ERecoverAll ord; EComplete 0 false; EComplete 1 true; EDaemon 2 (Some false); ERecover 1; EComplete 1 false] in
+  NoDup (map pcid pins) /\ stable_run (init_of cf) (evs []) /\ ord_run (init_of cf) (evs []) /\
+  snd (step (init_of cf) (ERecoverAll [])) = RFull /\
+  spec_codes6 cf (mtrace 3 [] (init_of cf) (evs [])) = [] /\
+  spec_codes6 cf (mtrace 3 [] (init_of cf) (evs [0; 1; 2])) = [20; 21] /\
+  (let cf2 : cfg := (1%nat, 1%nat, 1, [], dm_of []) in
+   spec_codes6 cf2 (mtrace 1 [] (init_of cf2) [ETrack (mk_pin 0 false true false 1); ETrack (mk_pin 0 true false false 2); EComplete 0 true]) = [20; 21]).
+Proof. cbv zeta. split; [simpl; repeat constructor; simpl; intuition discriminate|].
+  split; [vm_compute; tauto|]. split.
+  - cbn [ord_run ord_ok]. repeat split; try exact I. intros _ c _ _ [].
+  - repeat split; vm_compute; reflexivity. Qed.
